@@ -577,6 +577,11 @@ var c07Corpus = []string{
 	"agg table 00 s:780061002d39323233333732303336383534373735383038",
 	"agg table 20 s:312061,s:322062,t:0:.:.:1:9",
 	"agg table 00 s:780061,s:790062,t:0:.:.:1:9223372036854775807,s:780061",
+	// group keys with empty values at the first / inner / last position (seeded/C07-groupkey-leading-empty)
+	"gk 12 007800;6100;0061;00",
+	"gk 123 000078;610000;00;0000",
+	"gk 1 -;61",
+	"parts 0061",
 }
 
 func init() {
